@@ -962,6 +962,28 @@ PROPS["C17"] = {
         "Lace.C17.label_resolves",
         "Lace.C17.label_out_of_range",
         "Lace.C17.unknown_label",
+        # the breakpoint table (Props/C17Table.lean)
+        "Lace.C17.printCell_eq_bpCell",
+        "Lace.C17.bpCell_length",
+        "Lace.C17.bpCell_fits",
+        "Lace.C17.bpCell_truncates",
+        "Lace.C17.label_cell_rule",
+        "Lace.C17.line_cell_rule",
+        "Lace.C17.getSingleLine_eq_showSingleLine",
+        "Lace.C17.bp_table_line_eq_assembly",
+        "Lace.C17.bp_table_empty",
+        "Lace.C17.bp_table_line_statement",
+        "Lace.C17.bp_table_line_blank",
+        "Lace.C17.break_list_normal_no_panic",
+        "Lace.C17.bp_table_label",
+        "Lace.C17.bp_table_label_sound",
+        "Lace.C17.bp_table_label_none",
+        "Lace.C17.bp_table_label_mem",
+        "Lace.C17.resolveSymbolName_perm",
+        "Lace.C17.bp_table_rows",
+        "Lace.C17.bp_table_sorted",
+        "Lace.C17.bpRows_eq",
+        "Lace.C17.two_labels_one_line",
     ],
     "compare": cmp_default,
     "classify": src_classify,
@@ -976,7 +998,13 @@ PROPS["C17"] = {
              "`assembly l`, `break add l+-k`, `goto l+-k`, `assembly ^0`, `break add ^0`, a case-variant name, then "
              "`break list`, `registers`. Three-way: implementation vs model (spans from the Lean assembler model, "
              "text sliced from the source) vs the generator's own per-statement text, label table, origin and .break "
-             "positions (renderStatement oracle)."),
+             "positions (renderStatement oracle). B17: sessions in the NORMAL output mode on such sources with labels of "
+             "10-30 characters and .stringz statements of 24-40 characters (multi-byte characters anywhere): `break add` "
+             "at every / some statement addresses, addresses without statement, refused addresses, label+-k, `break "
+             "remove`, `break list` one to three times (empty list and .break-only lists included); what `break list` "
+             "printed is cut out of stderr between echo markers, ANSI escape sequences removed, compared byte for byte "
+             "three-way: implementation vs breakListNormal on the assembler model's spans and symbol table vs the table "
+             "laid out from the generator's per-word texts and label table."),
     "trusted": [
         "the generator records what it wrote per statement (text, word count) while rendering; word counts of "
         ".stringz use an independent unescape",
@@ -985,5 +1013,9 @@ PROPS["C17"] = {
         "labels are used as locations only when the command grammar can name them (I14): `b+1`, `o-3`, `x+2` are integers",
         "no comment between a data directive and its operand (the preprocessor does not skip comments there)",
         "ESC characters in statement text are not generated (minimal mode strips ANSI sequences)",
+        "break list (normal mode) is compared after removing ESC [ ... final-byte sequences from both sides: the "
+        "colour prefix lace's DebuggerWriter/Colored puts in front of every write is not modelled",
+        "generated sources put at most one label on a statement (a label followed by .break/.orig shares its line "
+        "with the next label; lace then shows whichever the hash map yields first: Lace.C17.two_labels_one_line)",
     ],
 }
